@@ -175,6 +175,25 @@ def HQueue.getTopIfPriority (q : HQueue) (p : Int) : Option (Option Sig × HQueu
 /-- `empty()` -/
 def HQueue.isEmpty (q : HQueue) : Bool := q.heap.isEmpty
 
+/-! ### the abstraction to the sorted-list queue of the machine model -/
+
+/-- the heap property of `heapq`: no element is smaller than its parent `(i - 1) >> 1` -/
+def IsHeap (lt : α → α → Bool) (a : Array α) : Prop :=
+  ∀ i (h : i < a.size), 0 < i → lt a[i] (a[(i - 1) / 2]'(by omega)) = false
+
+/-- insertion sort with the machine model's `insertEntry` -/
+def sortL (l : List Entry) : List Entry := l.foldr insertEntry []
+
+/-- the sorted-list queue (`EQueue` of `Machine.lean`) a heap-based queue stands for -/
+def abs (q : HQueue) : EQueue := { entries := sortL q.heap.toList, sources := q.sources, seq := q.seq }
+
+/-- the invariant of the heap-based queue: the list is a heap w.r.t. `__lt__`; every stored arrival
+number is below the counter; arrival numbers are pairwise distinct; the stored priority is the
+signal's priority -/
+def Inv (q : HQueue) : Prop :=
+  IsHeap entryLt q.heap ∧ (∀ e ∈ q.heap.toList, e.2.1 < q.seq) ∧
+    q.heap.toList.Pairwise (fun a b => a.2.1 ≠ b.2.1) ∧ (∀ e ∈ q.heap.toList, e.1 = e.2.2.prio)
+
 /-! ### operation sequences -/
 
 inductive Op where
@@ -230,5 +249,15 @@ def runOps (q : HQueue) : List Op → List (Out × List (Int × Nat))
 
 /-- test helper: a signal with the given priority and id -/
 def mkSig (prio : Int) (id : Nat) : Sig := { id := id, cls := .user 0, prio := prio, src := .none }
+
+/-- push all items (in order) onto an empty heap, for any comparison -/
+def pushAll (lt : α → α → Bool) (l : List α) : Array α := l.foldl (heappush lt) #[]
+
+/-- pop until the heap is empty (at most `fuel` times); the popped items in order -/
+def drain (lt : α → α → Bool) : Nat → Array α → List α
+  | 0, _ => []
+  | fuel + 1, heap => match heappop lt heap with
+    | none => []
+    | some (x, heap') => x :: drain lt fuel heap'
 
 end Simpleline.Heapq
